@@ -805,23 +805,28 @@ let c19_backupm t =
 
 
 (* ---------- C20: write pool ---------- *)
-(* pool <nops> { H | R | Q p id | C id | W ms } : the dispatcher runs whenever it can; a task that
-   was granted the connection outside a hold releases it before the next operation *)
+(* pool <nops> { H | R | Q p id | L p id | C id | W ms } : the dispatcher runs whenever it can; a Q
+   task that was granted the connection releases it before the next operation; an L task keeps
+   it until it is cancelled *)
 let c20_poolm t =
   let nops = ti t in
   let st = ref pool_init in
   let held0 = ref false in
-  (* run the dispatcher; holders other than the scripted hold (id 0) release on their own *)
+  let longs = ref [] in
   let rec settle () =
     match !st.holder with
-    | Some h -> if int_of_z h = 0 && !held0 then () else begin st := wp_step !st Release; settle () end
+    | Some h -> if (int_of_z h = 0 && !held0) || List.mem (int_of_z h) !longs then () else begin st := wp_step !st Release; settle () end
     | None ->
       if int_of_nat (waiting !st) > 0 then begin st := wp_step !st Dispatch; settle () end in
+  let prio () = (match ti t with 0 -> PHigh | 1 -> PNormal | _ -> PLow) in
   for _ = 1 to nops do
     (match tok t with
      | "H" -> st := wp_step !st (Req (PHigh, Z0)); held0 := true; settle ()
      | "R" -> if !held0 then begin held0 := false; (match !st.holder with Some h when int_of_z h = 0 -> st := wp_step !st Release | _ -> ()) end; settle ()
-     | "Q" -> let p = (match ti t with 0 -> PHigh | 1 -> PNormal | _ -> PLow) in let id = tz t in
+     | "Q" -> let p = prio () in let id = tz t in
+       st := wp_step !st (Req (p, id)); settle ()
+     | "L" -> let p = prio () in let id = tz t in
+       longs := int_of_z id :: !longs;
        st := wp_step !st (Req (p, id)); settle ()
      | "C" -> let id = tz t in st := wp_step !st (Cancel id); settle ()
      | "W" -> let _ = ti t in ()
@@ -829,6 +834,7 @@ let c20_poolm t =
   done;
   if !held0 then begin held0 := false; (match !st.holder with Some h when int_of_z h = 0 -> st := wp_step !st Release | _ -> ()) end;
   settle ();
+  (match !st.holder with Some _ -> failwith "script ends with an L task holding" | None -> ());
   "grants=" ^ join "," sz !st.grants ^ " waiting=" ^ string_of_int (int_of_nat (waiting !st))
 
 (* ---------- dispatch ---------- *)
